@@ -16,24 +16,17 @@ SYMX = ["symbol", X]
 CLASS = {"I": "UIntPoly", "Q": "URatPoly", "E": "UExprPoly"}
 
 # ------------------------------------------------------------------ known library defects
-# Each tag is a genuine defect found by this check on the pinned tree (see the reproducers in PROBES).
-# The inputs that reach them are excluded *by construction* and counted as skip("known:<tag>") so that
-# the search continues (GUIDE "Soundness rules").  VERIF_POLY_KNOWN_OFF=all (or a comma list of tags)
-# switches the exclusion off, e.g. to validate a fix: the check then goes red while the defect exists.
-KNOWN_OFF = set(t for t in os.environ.get("VERIF_POLY_KNOWN_OFF", "").split(",") if t)
-
-
-def excluded(tag):
-    return not ("all" in KNOWN_OFF or tag in KNOWN_OFF)
-
-
+# Each tag is a genuine defect found by this check on the pinned tree (reproducers: PROBES below and
+# replays/known/C21-<tag>.json).  Known-findings protocol (GUIDE): while a finding with matcher <tag> is listed as
+# 'known' and its reproducer still fails, self.tag_active(<tag>) is true and the inputs that reach the defect are
+# excluded *by construction* and counted as skip("known:<tag>"); otherwise they are generated and judged normally.
 K_POW0 = "pow_exponent_zero_hang"        # ODictWrapper::pow: while (p != 1) never ends for p == 0
 K_EMPTY = "uintdict_mul_empty"           # UIntDict::mul / eval_bit / max_abs_coef dereference begin()/rbegin() of an empty map
 K_SLOT = "kronecker_slot_width"          # UIntDict::mul: N one bit short for signed digits -> wrong product
 K_EVAL0 = "eval_zero_poly"               # USymEnginePoly::eval: dict_.rbegin() of the zero polynomial
 K_DIVTC = "divides_term_count"           # divides_upoly loops on term counts instead of degrees
 
-# minimal reproducers (driver programs); a probe is judged only when its exclusion is switched off
+# minimal reproducers (driver programs); a probe is judged whenever its tag is not active
 PROBES = [
     (K_POW0, "I", '(symbol "x") (uint_from_vec $0 [1]) (pow_upoly $1 0)', ["UIntPoly", ["Symbol", X], [[0, "1"]]]),
     (K_POW0, "Q", '(symbol "x") (urat_from_vec $0 []) (pow_upoly $1 0)', ["URatPoly", ["Symbol", X], [[0, "1", "1"]]]),
@@ -81,43 +74,40 @@ def kron_safe(a, b):
     return max(abs(v) for v in prod.values()) < 2 ** (n - 1)
 
 
-def kron_tag(a, b):
-    """known-defect tag reached by the call UIntDict::mul(a, b), or None"""
+def kron_tags(a, b):
+    """known-defect tags reached by the call UIntDict::mul(a, b)"""
     if not a or not b:
-        return K_EMPTY
+        return {K_EMPTY}
     if not kron_safe(a, b):
-        return K_SLOT
-    return None
+        return {K_SLOT}
+    return set()
 
 
-def mul_upoly_tag(p, q):
+def mul_upoly_tags(p, q):
     """mul_upoly = ODictWrapper::operator*=: zero and constant right operands never reach UIntDict::mul"""
     if not p or not q or (len(q) == 1 and 0 in q):
-        return None
-    return kron_tag(p, q)
+        return set()
+    return kron_tags(p, q)
 
 
-def pow_tag(p, n, cls):
-    """known-defect tag reached by pow_upoly(p, n) (mirror of the call sequence of ODictWrapper::pow)"""
+def pow_tags(p, n, cls):
+    """known-defect tags reached by pow_upoly(p, n) (mirror of the call sequence of ODictWrapper::pow)"""
     if n == 0:
-        return K_POW0
+        return {K_POW0}
     if cls != "I":
-        return None
+        return set()
     if not p:
-        return K_EMPTY
+        return {K_EMPTY}
+    tags = set()
     tmp, res = p, {0: 1}
     while n != 1:
         if n % 2:
-            t = kron_tag(res, tmp)
-            if t:
-                return t
+            tags |= kron_tags(res, tmp)
             res = dmul(res, tmp)
-        t = kron_tag(tmp, tmp)
-        if t:
-            return t
+        tags |= kron_tags(tmp, tmp)
         tmp = dmul(tmp, tmp)
         n >>= 1
-    return kron_tag(res, tmp)
+    return tags | kron_tags(res, tmp)
 
 
 def ref_divides(a, b, integral):
@@ -145,32 +135,25 @@ def ref_divides(a, b, integral):
     return (not r), (q if not r else None), agrees
 
 
-def conv_tag(d, val):
-    """known-defect tag reached by from_basic<UIntPoly> on the tree d: mirror of the multiplication calls of
+def conv_tags(d, val):
+    """known-defect tags reached by from_basic<UIntPoly> on the tree d: mirror of the multiplication calls of
     BasicToUPolyBase (basic_conversions.h); val(node) is the reference value {k: int} of a node"""
     h = d[0]
+    tags = set()
     if h == "Add":
         for t, c in d[2]:
-            tag = conv_tag(t, val) or kron_tag(val(t), val(c))      # friend operator*: always UIntDict::mul
-            if tag:
-                return tag
-        return None
-    if h == "Mul":
+            tags |= conv_tags(t, val) | kron_tags(val(t), val(c))      # friend operator*: always UIntDict::mul
+    elif h == "Mul":
         res = val(d[1])
         for b, e in d[2]:
             node = b if e == ["Integer", "1"] else ["Pow", b, e]
-            tag = conv_tag(node, val)
-            if tag:
-                return tag
+            tags |= conv_tags(node, val)
             other = val(node)
-            tag = mul_upoly_tag(res, other)
-            if tag:
-                return tag
+            tags |= mul_upoly_tags(res, other)
             res = dmul(res, other)
-        return None
-    if h == "Pow" and d[2][0] == "Integer" and int(d[2][1]) > 0:
-        return conv_tag(d[1], val) or pow_tag(val(d[1]), int(d[2][1]), "I")
-    return None
+    elif h == "Pow" and d[2][0] == "Integer" and int(d[2][1]) > 0:
+        tags |= conv_tags(d[1], val) | pow_tags(val(d[1]), int(d[2][1]), "I")
+    return tags
 
 
 def hits_threshold(a, b):
@@ -470,9 +453,9 @@ class C21(HangJudge, Check):
     assumptions = ["Python int/Fraction dictionary arithmetic is the reference; dumped coefficient trees of UExprPoly are "
                    "evaluated in Python (Add/Mul/Pow over Q[a])",
                    "documented exceptions of from_basic decline a case; an exception of an arithmetic op or query is a violation",
-                   "inputs reaching the known defects listed in KNOWN (pow exponent 0, UIntDict::mul on an empty dict, "
-                   "Kronecker slot width, eval of the zero polynomial, divides_upoly term counts) are excluded by construction "
-                   "and counted as skipped known:<tag>; as_symbolic of UIntPoly/URatPoly over a Pow generator trips "
+                   "while a known finding is active (known_findings.json, tags pow_exponent_zero_hang, uintdict_mul_empty, "
+                   "kronecker_slot_width, eval_zero_poly, divides_term_count) the inputs reaching it are excluded by construction "
+                   "and counted as skipped known:<tag>; otherwise they are judged; as_symbolic of UIntPoly/URatPoly over a Pow generator trips "
                    "SYMENGINE_ASSERT (counted assert_seen, reported by C03)",
                    "UExprPoly results may store coefficients that are zero only after expansion (Expression has no zero test): "
                    "compared by value; degree/lc/size are then judged against the stored dictionary"]
@@ -502,14 +485,17 @@ class C21(HangJudge, Check):
                          kron_case(), kron_case(), kron_case(), conv_case(), conv_case())
 
     # ------------------------------------------------------------ helpers
-    def known(self, tag):
-        """True when the sub-case must be excluded (and counts it)"""
-        if tag is None:
+    def known(self, tags):
+        """True when the sub-case reaches a known defect whose tag is active: it is excluded and counted"""
+        if not tags:
             return False
-        if excluded(tag):
-            self.count()
-            self.skip("known:" + tag)
-            return True
+        if isinstance(tags, str):
+            tags = (tags,)
+        for t in sorted(tags):
+            if self.tag_active(t):
+                self.count()
+                self.skip("known:" + t)
+                return True
         return False
 
     def bad_exc(self, r, what, detail):
@@ -574,11 +560,16 @@ class C21(HangJudge, Check):
         if self.known(case["tag"]):
             return
         self.count()
-        try:
-            res = self.run(case["prog"], timeout=5)
-        except DriverTimeout:
-            raise Violation("does not terminate (5 s, 3 statements, result of trivial size required): %s" % case["prog"],
-                            {"tag": case["tag"]})
+        res = None
+        for _ in range(2):
+            try:
+                res = self.run(case["prog"], timeout=10)
+                break
+            except DriverTimeout:
+                pass
+        if res is None:
+            raise Violation("does not terminate (no answer within 10 s, twice; 3 statements, result of trivial size "
+                            "required): %s" % case["prog"], {"tag": case["tag"]})
         r = res[-1]
         got = B(r) if B(r) is not None else r
         if got != case["want"]:
@@ -612,7 +603,7 @@ class C21(HangJudge, Check):
         PQ = pr.mul(P, Q)
         for (a, b, A, Bq, ad, bd, nm) in ((p, q, P, Q, pd, qd, "mul_upoly(p,q)"), (q, p, Q, P, qd, pd, "mul_upoly(q,p)"),
                                           (p, p, P, P, pd, pd, "mul_upoly(p,p)")):
-            if cls == "I" and self.known(mul_upoly_tag(ad, bd)):
+            if cls == "I" and self.known(mul_upoly_tags(ad, bd)):
                 continue
             ask(["mul_upoly", a, b], "poly", pr.mul(A, Bq), nm)
         # pow
@@ -623,7 +614,7 @@ class C21(HangJudge, Check):
         if cls == "E":
             # Expression coefficients are not expanded by the library: keep the trees small
             n = n % (4 if len(case["p"]) <= 3 else 3)
-        if not self.known(pow_tag(pd if num else P, n, cls)):
+        if not self.known(pow_tags(pd if num else P, n, cls)):
             ask(["pow_upoly", p, n], "poly", pr.pw(P, n), "pow_upoly(p,%d)" % n)
         # queries
         ud = udict(P)
@@ -764,7 +755,7 @@ class C21(HangJudge, Check):
         if case.get("boundary"):
             self.cls("kron:threshold_boundary_pair" if hits_threshold(pd, qd) else "kron:threshold_boundary_pair_stale")
         for (a, b, ad, bd, nm) in ((1, 2, pd, qd, "p*q"), (2, 1, qd, pd, "q*p"), (1, 1, pd, pd, "p*p")):
-            if self.known(mul_upoly_tag(ad, bd)):
+            if self.known(mul_upoly_tags(ad, bd)):
                 continue
             plan.append((len(stm), "mul_upoly(%s)" % nm, dmul(ad, bd), ad, bd))
             stm.append(["mul_upoly", R(a), R(b)])
@@ -773,7 +764,7 @@ class C21(HangJudge, Check):
             n = 2
         if max(pd) * pr.bits(P) > 3000:
             self.cls("kron:pow_skipped_large")
-        elif not self.known(pow_tag(pd, n, "I")):
+        elif not self.known(pow_tags(pd, n, "I")):
             w = {0: 1}
             for _ in range(n):
                 w = dmul(w, pd)
@@ -893,11 +884,11 @@ class C21(HangJudge, Check):
         for c in classes:
             if c == "I":
                 try:
-                    tag = conv_tag(edump, val)
-                    tagx = conv_tag(xdump, val)
+                    tag = conv_tags(edump, val)
+                    tagx = conv_tags(xdump, val)
                 except Unsupported:
                     # the mirror cannot tell whether UIntDict::mul is reached with an empty operand
-                    tag = tagx = K_EMPTY if self.has_vanishing(edump) else None
+                    tag = tagx = {K_EMPTY} if self.has_vanishing(edump) else set()
                 if self.known(tag) or self.known(tagx):
                     continue
             name = CLASS[c]
